@@ -75,6 +75,19 @@ pub fn run_case(env: &Env, ctx: &mut Ctx, idx: u64) {
         let _ = exec(&c, &mut rb);
         hist.push(c);
     }
+    if rng.chance(1, 12) {
+        // accumulation: one small failing call repeated many times (a counter that leaks one per failure, a stack
+        // that grows by one per open region, needs many of them before a later call notices)
+        let src = rng.pick(POLLUTERS).to_string();
+        let c = mk(&mut rng, src);
+        let n = *rng.pick(&[3usize, 10, 70, 130, 300]);
+        for _ in 0..n {
+            let _ = exec(&c, &mut rb);
+        }
+        ctx.count("histories_with_a_repeated_failing_call", 1);
+        ctx.count("repeated_failing_calls", n as u64);
+        hist.push(c);
+    }
     // probe: a sensitive probe, a corpus program, or a repetition of an earlier call
     let last_raw = hist.iter().rev().find(|c| matches!(c.entry, Entry::RawSv | Entry::RawSvIncomplete | Entry::RawLib | Entry::RawPp)).cloned();
     let probe = match rng.below(11) {
